@@ -229,7 +229,7 @@ def complete_structure(draw_fn, nfinal, finals, top, trees, parity_conserving, r
 
 
 @st.composite
-def structure(draw, nfinal=3, max_chains=3, min_chains=1, parity_conserving=None, spins=None, need_spin=False):
+def structure(draw, nfinal=3, max_chains=3, min_chains=1, parity_conserving=None, spins=None, need_spin=False, trees=None):
     """A 3- or 4-body structure spec with consistent fermion number."""
     spins = spins or FINAL_SPINS
     fs = [draw(st.sampled_from(spins)) for _ in range(nfinal)]
@@ -242,7 +242,7 @@ def structure(draw, nfinal=3, max_chains=3, min_chains=1, parity_conserving=None
     finals = [{"J": spin_out(fs[i]), "P": draw(st.sampled_from([1, -1])), "mass": masses[i]} for i in range(nfinal)]
     Q = draw(st.floats(0.8, 2.5))
     top = {"J": spin_out(top_J), "P": draw(st.sampled_from([1, -1])), "mass": float(sum(masses) + Q)}
-    pool = TREES3 if nfinal == 3 else TREES4
+    pool = trees or (TREES3 if nfinal == 3 else TREES4)
     nch = draw(st.integers(min_chains, max_chains))
     idx = draw(st.lists(st.integers(0, len(pool) - 1), min_size=nch, max_size=nch))
     trees = [pool[i] for i in idx]
